@@ -1269,8 +1269,8 @@ class Ctx:
             return v
         raise Unsupported('cast %s to %s in %s' % (kind, ty, f.name))
 
-    def enum_variants(self, name):
-        ev = self.src.enum_variants(name)
+    def enum_variants(self, name, variant=None):
+        ev = self.src.enum_variants_for(name, variant) if variant is not None else self.src.enum_variants(name)
         if ev is not None:
             return ev
         return STD_ENUMS.get(last_seg(name))
@@ -1319,7 +1319,7 @@ class Ctx:
         if kind in ('tuplestruct', 'unit'):
             vals = [self.operand(f, L, o) for o in items]
             if len(segs) >= 2:
-                ev = self.enum_variants('::'.join(segs[:-1]))
+                ev = self.enum_variants('::'.join(segs[:-1]), name)
                 if ev is not None:
                     for vn, disc, fl in ev:
                         if vn == name:
@@ -1327,6 +1327,8 @@ class Ctx:
             fields = self.src.struct_fields(p)
             if fields is not None:
                 return Struct(name, [Cell(v) for v in vals])
+            if kind == 'unit' and len(segs) >= 2 and not p.startswith(('database', 'synchronisation', 'security', 'network')):
+                return Enum(segs[-2], -1, name, [])
             raise Unsupported('unknown aggregate %s in %s' % (path, f.name))
         raise Unsupported('aggregate %r' % (rv,))
 
